@@ -241,9 +241,7 @@ func (g *genState) addRealCA() {
 	f := cl.Fields{Version: version, Curve: int(curve), IsCA: true, NotBefore: nb, NotAfter: na,
 		Name: fmt.Sprintf("ca%d", len(g.cas)), Networks: cl.CANets(g.r, version == 2), Unsafe: cl.CANets(g.r, version == 2),
 		PublicKey: key.Pub}
-	if r.Bool() {
-		f.Groups = cl.Subset(r, cl.GroupUniverse)
-	}
+	f.Groups = cl.CAGroups(r)
 	mode := r.Intn(12)
 	if mode == 0 {
 		f.IsCA = false // refused: not a CA (needs a network to decode)
